@@ -58,7 +58,13 @@ pub struct SyncSc {
     /// fail with errno (EIO / ENOSPC / EACCES by nth % 3); None = fault-free
     #[serde(default)]
     pub inject: Option<(u8, u32)>,
+    /// the REMOTE root is named on the command line through a symlink to the directory
+    /// (`current -> releases/v1`): only the spelling of the root changes, the tree does not
+    #[serde(default)]
+    pub root_link: bool,
 }
+
+pub const REMOTE_LINK: &str = "/data/current";
 
 pub const FAULT_KINDS: [OpKind; 6] = [OpKind::Write, OpKind::Rename, OpKind::Open, OpKind::PipeWrite, OpKind::Spawn, OpKind::Readdir];
 
@@ -190,7 +196,8 @@ pub fn gen_sync(r: &mut Rng, allow_fail_inputs: bool) -> SyncSc {
     }
     let excludes = if r.below(3) == 0 { gen_excludes(r, &paths) } else { Vec::new() };
     let big = files.iter().any(|f| f.size > 100_000);
-    SyncSc {
+    let root_link = dir != 0 && r.below(6) == 0;
+    let mut sc = SyncSc {
         seed: r.next_u64(),
         dir,
         files,
@@ -206,7 +213,10 @@ pub fn gen_sync(r: &mut Rng, allow_fail_inputs: bool) -> SyncSc {
         readdir_shuffle: r.coin(),
         dst_exists: r.below(8) != 0,
         inject: None,
-    }
+        root_link: false,
+    };
+    sc.root_link = root_link;
+    sc
 }
 
 pub fn src_host(sc: &SyncSc) -> &'static str {
@@ -266,12 +276,22 @@ pub fn build_world(sc: &SyncSc) -> World {
             w.host(dh).put_file(&format!("{DST_ROOT}/{p}"), &body(9000, *sz), t - 3_000_000_000);
         }
     }
+    if link_in_use(sc) {
+        let target = if sc.dir == 1 { DST_ROOT } else { SRC_ROOT };
+        let _ = w.host(REMOTE).symlink("/", target, REMOTE_LINK, t);
+    }
     w
 }
 
+/// Is the remote root named through the symlink in this scenario?
+pub fn link_in_use(sc: &SyncSc) -> bool {
+    sc.root_link && (sc.dir == 2 || (sc.dir == 1 && sc.dst_exists))
+}
+
 pub fn argv(sc: &SyncSc, dry_run: bool) -> Vec<String> {
-    let src = if sc.dir == 2 { format!("{REMOTE}:{SRC_ROOT}") } else { SRC_ROOT.to_string() };
-    let dst = if sc.dir == 1 { format!("{REMOTE}:{DST_ROOT}") } else { DST_ROOT.to_string() };
+    let link = link_in_use(sc);
+    let src = if sc.dir == 2 { format!("{REMOTE}:{}", if link { REMOTE_LINK } else { SRC_ROOT }) } else { SRC_ROOT.to_string() };
+    let dst = if sc.dir == 1 { format!("{REMOTE}:{}", if link { REMOTE_LINK } else { DST_ROOT }) } else { DST_ROOT.to_string() };
     let mut a = sv(&["copia", "sync", "-r", &src, &dst, "--jobs", &sc.jobs.to_string()]);
     if sc.delete {
         a.push("--delete".into());
